@@ -391,6 +391,37 @@ func extractResponders(t *T) (string, error) {
 	}
 	sort.Strings(callers)
 
+	// internal/state/updates.go: the NewFetch calls of the Apply methods of the flag state updates
+	const updFile = "internal/state/updates.go"
+	uf, err := t.ParseFile(updFile)
+	if err != nil {
+		return "", err
+	}
+	var newFetch []string
+	for _, d := range uf.Decls {
+		fd, ok := d.(*ast.FuncDecl)
+		if !ok || fd.Body == nil || fd.Name.Name != "Apply" {
+			continue
+		}
+		_, rtyp := recvOf(fd)
+		ast.Inspect(fd.Body, func(n ast.Node) bool {
+			c, ok := n.(*ast.CallExpr)
+			if !ok || calleeName(c.Fun) != "NewFetch" {
+				return true
+			}
+			diff, opn := "?", "?"
+			if len(c.Args) == 6 {
+				diff, opn = oneLine(t.Src(updFile, c.Args[4])), oneLine(t.Src(updFile, c.Args[5]))
+			}
+			newFetch = append(newFetch, fmt.Sprintf("(%s, %s, %s)", coqString(rtyp), coqString(diff), coqString(opn)))
+			return true
+		})
+	}
+	if len(newFetch) == 0 {
+		return "", fmt.Errorf("%s: no NewFetch call in an Apply method", updFile)
+	}
+	sort.Strings(newFetch)
+
 	strs := func(l []string) string {
 		q := make([]string, len(l))
 		for i, s := range l {
@@ -424,5 +455,7 @@ func extractResponders(t *T) (string, error) {
 	fmt.Fprintf(&b, "Definition close_resets_res : bool := %s.\n", closeResets)
 	b.WriteString("(* calls of setSnap in methods of State: (method, argument, an `if <receiver>.snap != nil { .. <receiver>.close() .. }`\n   statement precedes the call in the method body) *)\n")
 	fmt.Fprintf(&b, "Definition setsnap_calls : list (string * string * bool) := %s.\n", list(callers))
+	b.WriteString("\n(* internal/state/updates.go: the NewFetch calls in Apply methods: (update type, the cameFromDifferentMailbox argument,\n   the fetchFlagOp argument) *)\n")
+	fmt.Fprintf(&b, "Definition newfetch_calls : list (string * string * string) := %s.\n", list(newFetch))
 	return b.String(), nil
 }
